@@ -7,7 +7,7 @@ from vlib import parse_pairs
 ID = "C20"
 THEOREMS = [("FlatModel.Props.C20", t) for t in ("FC.C20.slice_item_form", "FC.C20.readList_of_iter", "FC.pushReads_some",
                                                   "FC.C20.columns_iter_form", "FC.C20.columns_iter_form_region", "FC.pushRowLazy_spec")]
-PROFILES = {"quick": ["checked"], "thorough": ["checked", "wrapping"], "search": ["checked"]}
+PROFILES = {"quick": ["checked", "wrapping"], "thorough": ["checked", "wrapping"], "search": ["checked"]}
 RULE = ("twin regions: one fed a random mix of every input form the entry offers (owned, reference, reference to reference, array, "
         "slice, vector, element views such as Vec<&str>, wrapped iterator, read item taken from another region in both "
         "representations), one fed the canonical form; returned indices, used heap bytes and reads compared step by step; "
